@@ -453,6 +453,34 @@ def rule_r8(ctx) -> List[R.Inst]:
                 if isinstance(x, ast.If) and "not in" in unparse(x.test) and any(
                         isinstance(y, ast.Assign) and isinstance(y.targets[0], ast.Subscript) for y in ast.walk(x)):
                     fills = True
+    # the fill must be able to replicate every declared default: a bare `df[col] = default` lets pandas treat a
+    # list-valued default as a column of values (length mismatch / wrong cells) — only scalars broadcast
+    seq_defaults = []
+    for ic in sorted(c for c in M.classes if CTL not in c and M.class_kind(c) == "item"):
+        for f, (dt, dflt) in M.item_fields(ic).items():
+            try:
+                v = M.lit(M.classes[ic].mod, dflt) if isinstance(dflt, ast.AST) else dflt
+            except Exception:
+                continue
+            if isinstance(v, (list, dict, tuple, set)):
+                seq_defaults.append(f"{ic.rsplit('.', 1)[1]}.{f}={v!r}")
+    bare = None
+    for n in ast.walk(fn.node):
+        if isinstance(n, ast.For) and "_props" in unparse(n.iter) and isinstance(n.target, ast.Tuple):
+            names = [x.id for x in ast.walk(n.target) if isinstance(x, ast.Name)]
+            dv = names[-1] if names else None
+            for y in ast.walk(n):
+                if isinstance(y, ast.Assign) and isinstance(y.targets[0], ast.Subscript) and isinstance(y.value, ast.Name) and y.value.id == dv:
+                    bare = y
+    if bare is not None and seq_defaults:
+        insts.append(R.viol("C16.R8", "TimedList.from_dict.default-broadcast", file, bare.lineno,
+                            f"a missing declared column is filled with the raw default ('{unparse(bare)}'): pandas broadcasts scalars "
+                            f"only, so the list-valued default(s) {sorted(set(seq_defaults))[:3]} raise 'Length of values (0) does not "
+                            f"match length of index' — those list classes cannot be built from dicts that omit the field",
+                            construct=f"from_dict: {unparse(bare)} with sequence defaults"))
+    else:
+        insts.append(R.ok("C16.R8", "TimedList.from_dict.default-broadcast", file, line,
+                          idiom="declared defaults are replicated per row" if bare is None else "all declared defaults are scalars"))
     if rejects and fills:
         insts.append(R.ok("C16.R8", "TimedList.from_dict", file, line, idiom="reject unknown columns, fill missing declared ones"))
     else:
